@@ -45,32 +45,39 @@ theorem snoc_append {α : Type} (pre : List α) (c : α) (rest : List α) : pre 
 @[simp] theorem isEmpty_empty : Cell.empty.isEmpty = true := rfl
 @[simp] theorem isEmpty_val (v : Val) : (Cell.val v).isEmpty = false := rfl
 
+theorem len1 {α : Type} {l : List α} (h : l.length = 1) : ∃ c, l = [c] := by
+  match l, h with
+  | [c], _ => exact ⟨c, rfl⟩
+
+/-- what a merging loop hands back: list with origin, flag, log -/
+def mergeOut (o : Org) (pre : List Cell) (h : Bool) (st : St) : M (Bool × List Cell × Nat) → M (VL × Bool × St)
+  | .error e => .error e
+  | .ok (f, cs, w) => .ok (⟨o, pre ++ cs⟩, h || f, st.wrote o w)
+
 /-! ### `&&`: the forward loop is `andMerge` -/
 
 /-- the body of the loop in `syntaxLogicalAnd.compute`, as a function of the loop state -/
 def andBody (r : VL) (i : Nat) (l : VL) (h : Bool) (st : St) : M (VL × Bool × St) := do
   let t ← getCell r i
   if t.isEmpty then do
-    let (l', st') ← setCell l i Cell.empty st
-    .ok (l', h, st')
+    let (l, st) ← setCell l i Cell.empty st
+    .ok (l, h, st)
   else do
     let t' ← getCell l i
-    .ok (l, (if !t'.isEmpty then true else h), st)
+    let h ← (if !t'.isEmpty then .ok true else .ok h : M Bool)
+    .ok (l, h, st)
 
 theorem and_loop (body : Nat → VL × Bool × St → M (VL × Bool × St)) (ro o : Org) (rcells : List Cell)
     (hbody : ∀ i l h st, body i (l, h, st) = andBody ⟨ro, rcells⟩ i l h st) :
     ∀ (rs rpre ls pre : List Cell) (h : Bool) (st : St), rpre.length = pre.length → rcells = rpre ++ rs →
-      forFrom body pre.length rs.length (⟨o, pre ++ ls⟩, h, st) =
-        (match andMerge ls rs with
-         | .error e => .error e
-         | .ok (f, cs, w) => .ok (⟨o, pre ++ cs⟩, h || f, st.wrote o w))
+      forFrom body pre.length rs.length (⟨o, pre ++ ls⟩, h, st) = mergeOut o pre h st (andMerge ls rs)
   | [], rpre, ls, pre, h, st, _, _ => by
-    cases ls <;> simp [forFrom, andMerge, wrote_zero]
+    cases ls <;> simp [forFrom, andMerge, wrote_zero, mergeOut]
   | r :: rs, rpre, [], pre, h, st, hlen, hr => by
     subst hr
     simp only [List.length_cons, forFrom, hbody, andBody, andMerge, List.append_nil]
     rw [← hlen, getCell_at, hlen]
-    cases r <;> simp [getCell_end, setCell_end, bind, Except.bind]
+    cases r <;> simp [getCell_end, setCell_end, bind, Except.bind, mergeOut]
   | r :: rs, rpre, l :: ls, pre, h, st, hlen, hr => by
     subst hr
     simp only [List.length_cons, forFrom, hbody, andBody, andMerge]
@@ -86,18 +93,686 @@ theorem and_loop (body : Nat → VL × Bool × St → M (VL × Bool × St)) (ro 
       | error e => rfl
       | ok v =>
         obtain ⟨f, cs, w⟩ := v
-        simp [wrote_wrote, Nat.add_comm]
+        simp [mergeOut, wrote_wrote, Nat.add_comm]
     | val v =>
       simp only [isEmpty_val, Bool.false_eq_true, if_false, bind, Except.bind, getCell_at]
-      have := and_loop body ro o _ hbody rs (rpre ++ [Cell.val v]) ls (pre ++ [l]) (if !l.isEmpty then true else h) st
+      have := fun h' => and_loop body ro o _ hbody rs (rpre ++ [Cell.val v]) ls (pre ++ [l]) h' st
         (by simp [hlen]) (by simp)
       rw [snoc_length, ← snoc_append] at this
-      rw [this]
-      cases andMerge ls rs with
+      cases l with
+      | empty =>
+        simp only [isEmpty_empty, Bool.not_true, Bool.false_eq_true, if_false]
+        rw [this]
+        cases andMerge ls rs with
+        | error e => rfl
+        | ok v =>
+          obtain ⟨f, cs, w⟩ := v
+          simp [mergeOut]
+      | val lv =>
+        simp only [isEmpty_val, Bool.not_false, if_true]
+        rw [this]
+        cases andMerge ls rs with
+        | error e => rfl
+        | ok v =>
+          obtain ⟨f, cs, w⟩ := v
+          cases h <;> cases f <;> simp [mergeOut]
+
+theorem and_range (body : Nat → VL × Bool × St → M (VL × Bool × St)) (ro o : Org) (rs ls : List Cell) (st : St)
+    (hbody : ∀ i l h st, body i (l, h, st) = andBody ⟨ro, rs⟩ i l h st) :
+    forRange rs.length (⟨o, ls⟩, false, st) body = mergeOut o [] false st (andMerge ls rs) := by
+  simpa [forRange] using and_loop body ro o rs hbody rs [] ls [] false st rfl rfl
+
+/-- the receiver of an `.and a b` query -/
+def recvAnd (env : Env) (a b : Q) : AndRecv := ⟨computeQ env a, computeQ env b⟩
+
+/-- `syntaxLogicalAnd.compute` is the `.and` equation of the model -/
+theorem and_tie (env : Env) (a b : Q) (root : Val) (ms : List Val) (st : St) :
+    computeQ env (.and a b) root ms st = Gen.QueriesGo.andCompute (recvAnd env a b) root ms st := by
+  simp only [computeQ, Gen.QueriesGo.andCompute, recvAnd, bind, Except.bind]
+  cases computeQ env a root ms st with
+  | error e => rfl
+  | ok v =>
+    obtain ⟨⟨lo, ls⟩, st1⟩ := v
+    simp only []
+    by_cases h1 : ls.length = 1
+    · obtain ⟨c, rfl⟩ := len1 h1
+      cases c <;> simp [getCell]
+    · have h1' : (ls.length == 1) = false := by simpa using h1
+      simp only [h1', Bool.false_eq_true, if_false]
+      cases computeQ env b root ms st1 with
       | error e => rfl
       | ok v =>
-        obtain ⟨f, cs, w⟩ := v
-        cases l <;> cases h <;> cases f <;> simp
+        obtain ⟨⟨ro, rs⟩, st2⟩ := v
+        simp only []
+        by_cases h2 : rs.length = 1
+        · obtain ⟨c, rfl⟩ := len1 h2
+          cases c <;> simp [getCell]
+        · have h2' : (rs.length == 1) = false := by simpa using h2
+          simp only [h2', Bool.false_eq_true, if_false]
+          rw [and_range _ ro lo rs ls st2 (by intro i l h st; rfl)]
+          cases andMerge ls rs with
+          | error e => rfl
+          | ok v =>
+            obtain ⟨f, cs, w⟩ := v
+            cases f <;> simp [mergeOut]
+
+
+/-! ### `||` -/
+
+def orOut (o : Org) (pre : List Cell) (st : St) : M (List Cell × Nat) → M (VL × St)
+  | .error e => .error e
+  | .ok (cs, w) => .ok (⟨o, pre ++ cs⟩, st.wrote o w)
+
+def orBody (r : VL) (i : Nat) (l : VL) (st : St) : M (VL × St) := do
+  let t ← getCell r i
+  let (l, st) ← (if !t.isEmpty then do
+      let t' ← getCell r i
+      let (l, st) ← setCell l i t' st
+      .ok (l, st)
+    else .ok (l, st) : M _)
+  .ok (l, st)
+
+theorem or_loop (body : Nat → VL × St → M (VL × St)) (ro o : Org) (rcells : List Cell)
+    (hbody : ∀ i l st, body i (l, st) = orBody ⟨ro, rcells⟩ i l st) :
+    ∀ (rs rpre ls pre : List Cell) (st : St), rpre.length = pre.length → rcells = rpre ++ rs →
+      rs.length ≤ ls.length →
+      forFrom body pre.length rs.length (⟨o, pre ++ ls⟩, st) = orOut o pre st (orMerge ls rs)
+  | [], rpre, ls, pre, st, _, _, _ => by
+    cases ls <;> simp [forFrom, orMerge, wrote_zero, orOut]
+  | r :: rs, rpre, [], pre, st, _, _, hle => by simp at hle
+  | r :: rs, rpre, l :: ls, pre, st, hlen, hr, hle => by
+    subst hr
+    simp only [List.length_cons, forFrom, hbody, orBody, orMerge]
+    rw [← hlen, getCell_at, hlen]
+    have hle' : rs.length ≤ ls.length := by simpa using hle
+    cases r with
+    | empty =>
+      simp only [isEmpty_empty, Bool.not_true, Bool.false_eq_true, if_false, bind, Except.bind]
+      have := or_loop body ro o _ hbody rs (rpre ++ [Cell.empty]) ls (pre ++ [l]) st
+        (by simp [hlen]) (by simp) hle'
+      rw [snoc_length, ← snoc_append] at this
+      rw [this]
+      cases orMerge ls rs with
+      | error e => rfl
+      | ok v =>
+        obtain ⟨cs, w⟩ := v
+        simp [orOut]
+    | val v =>
+      simp only [isEmpty_val, Bool.not_false, if_true, bind, Except.bind, setCell_at]
+      have := or_loop body ro o _ hbody rs (rpre ++ [Cell.val v]) ls (pre ++ [Cell.val v]) (st.wrote o 1)
+        (by simp [hlen]) (by simp) hle'
+      rw [snoc_length, ← snoc_append] at this
+      rw [this]
+      cases orMerge ls rs with
+      | error e => rfl
+      | ok v =>
+        obtain ⟨cs, w⟩ := v
+        simp [orOut, wrote_wrote, Nat.add_comm]
+
+theorem or_range (body : Nat → VL × St → M (VL × St)) (ro o : Org) (rs ls : List Cell) (st : St)
+    (hbody : ∀ i l st, body i (l, st) = orBody ⟨ro, rs⟩ i l st) (hle : rs.length ≤ ls.length) :
+    forRange rs.length (⟨o, ls⟩, st) body = orOut o [] st (orMerge ls rs) := by
+  simpa [forRange] using or_loop body ro o rs hbody rs [] ls [] st rfl rfl hle
+
+/-! ### `!` -/
+
+def notBody (i : Nat) (l : VL) (h : Bool) (st : St) : M (VL × Bool × St) := do
+  let t ← getCell l i
+  let (l, h, st) ← (if t.isEmpty then do
+      let (l, st) ← setCell l i (Cell.val (Val.bool true)) st
+      let h := true
+      .ok (l, h, st)
+    else do
+      let (l, st) ← setCell l i Cell.empty st
+      .ok (l, h, st) : M _)
+  .ok (l, h, st)
+
+theorem not_loop (body : Nat → VL × Bool × St → M (VL × Bool × St)) (o : Org)
+    (hbody : ∀ i l h st, body i (l, h, st) = notBody i l h st) :
+    ∀ (cs pre : List Cell) (h : Bool) (st : St),
+      forFrom body pre.length cs.length (⟨o, pre ++ cs⟩, h, st) =
+        .ok (⟨o, pre ++ (notFlip cs).2⟩, h || (notFlip cs).1, st.wrote o cs.length)
+  | [], pre, h, st => by simp [forFrom, notFlip, wrote_zero]
+  | c :: cs, pre, h, st => by
+    simp only [List.length_cons, forFrom, hbody, notBody, notFlip]
+    rw [getCell_at]
+    cases c with
+    | empty =>
+      simp only [isEmpty_empty, if_true, bind, Except.bind, setCell_at]
+      have := not_loop body o hbody cs (pre ++ [Cell.val (Val.bool true)]) true (st.wrote o 1)
+      rw [snoc_length, ← snoc_append] at this
+      rw [this]
+      simp [wrote_wrote, Nat.add_comm]
+    | val v =>
+      simp only [isEmpty_val, Bool.false_eq_true, if_false, bind, Except.bind, setCell_at]
+      have := not_loop body o hbody cs (pre ++ [Cell.empty]) h (st.wrote o 1)
+      rw [snoc_length, ← snoc_append] at this
+      rw [this]
+      simp [wrote_wrote, Nat.add_comm]
+
+theorem not_range (body : Nat → VL × Bool × St → M (VL × Bool × St)) (o : Org) (cs : List Cell) (st : St)
+    (hbody : ∀ i l h st, body i (l, h, st) = notBody i l h st) :
+    forRange cs.length (⟨o, cs⟩, false, st) body = .ok (⟨o, (notFlip cs).2⟩, (notFlip cs).1, st.wrote o cs.length) := by
+  simpa [forRange] using not_loop body o hbody cs [] false st
+
+def recvNot (env : Env) (a : Q) : NotRecv := ⟨computeQ env a⟩
+
+theorem not_tie (env : Env) (a : Q) (root : Val) (ms : List Val) (st : St) :
+    computeQ env (.not a) root ms st = Gen.QueriesGo.notCompute (recvNot env a) root ms st := by
+  simp only [computeQ, Gen.QueriesGo.notCompute, recvNot, bind, Except.bind]
+  cases computeQ env a root ms st with
+  | error e => rfl
+  | ok v =>
+    obtain ⟨⟨o, cs⟩, st1⟩ := v
+    simp only []
+    by_cases h1 : cs.length = 1
+    · obtain ⟨c, rfl⟩ := len1 h1
+      cases c <;> simp [getCell]
+    · have h1' : (cs.length == 1) = false := by simpa using h1
+      simp only [h1', Bool.false_eq_true, if_false]
+      rw [not_range _ o cs st1 (by intro i l h st; rfl)]
+
+
+/-! ### the parameter nodes -/
+
+/-- receiver of a `$`-path / `@`-path parameter with chain `ch` -/
+def recvPath (env : Env) (ch : List N) : PathRecv :=
+  ⟨fun root cur st => retrieve env ch default root cur none st⟩
+
+/-- receiver of a literal parameter: the one-element slice stored in the tree -/
+def recvLit (v : Val) : LitRecv := ⟨⟨.literal, [.val v]⟩⟩
+
+theorem lit_tie (env : Env) (v : Val) (root : Val) (ms : List Val) (st : St) :
+    computeP env (.lit v) root ms st = Gen.QueriesGo.literalCompute (recvLit v) root ms st := by
+  simp only [computeP, Gen.QueriesGo.literalCompute, recvLit]
+  rfl
+
+theorem sub_eq (st : St) : withBuf st [] = st.sub := rfl
+
+theorem proot_tie (env : Env) (ch : List N) (root : Val) (ms : List Val) (st : St) :
+    computeP env (.proot ch) root ms st = Gen.QueriesGo.rootCompute (recvPath env ch) root ms st := by
+  simp only [computeP, Gen.QueriesGo.rootCompute, recvPath, sub_eq, bind, Except.bind]
+  cases retrieve env ch default root root none st.sub with
+  | error e => rfl
+  | ok v =>
+    obtain ⟨s1, e⟩ := v
+    cases e with
+    | some err => rfl
+    | none =>
+      simp only [Option.isSome_none, Bool.false_eq_true, if_false]
+      match h : s1.out with
+      | [] => rfl
+      | [r] => rfl
+      | _ :: _ :: _ => simp
+
+/-- the body of the loop in `syntaxQueryParamCurrentRoot.compute` -/
+def pcurBody (e : PathRecv) (root : Val) (ms : List Val) (i : Nat) (r : Own) (h : Bool) (c : Buf) (st : St) :
+    M (Own × Bool × Buf × St) := do
+  let c : Buf := c.take 0
+  let t1 ← getVal ms i
+  let (s, t2) ← e.paramRetrieve root t1 (withBuf st c)
+  let c : Buf := s.out
+  let st := st.back s
+  if t2.isSome then do
+    let r ← r.set i Cell.empty
+    .ok (r, h, c, st)
+  else do
+    let h := true
+    let t3 ← bufGet c 0
+    let r ← r.set i (Cell.val t3)
+    .ok (r, h, c, st)
+
+/-- the container's contents after the loop (the model does not name it): what the last
+    sub-evaluation left in it -/
+def lastBuf (env : Env) (ch : List N) (root : Val) : List Val → Buf → St → Buf
+  | [], c, _ => c
+  | m :: ms, c, st =>
+    match retrieve env ch default root m none st.sub with
+    | .ok (s1, _) => lastBuf env ch root ms s1.out (st.back s1)
+    | .error _ => c
+
+def pcurOut (pre : List Cell) (h : Bool) (c : Buf) : M (List Cell × St) → M (Own × Bool × Buf × St)
+  | .error e => .error e
+  | .ok (cells, st) => .ok (⟨pre ++ cells⟩, h || cells.any (fun c => !c.isEmpty), c, st)
+
+theorem getVal_at (pre : List Val) (m : Val) (rest : List Val) : getVal (pre ++ m :: rest) pre.length = .ok m := by
+  simp [getVal]
+
+theorem ownSet_at (pre : List Cell) (c : Cell) (rest : List Cell) (c' : Cell) :
+    Own.set ⟨pre ++ c :: rest⟩ pre.length c' = .ok ⟨pre ++ c' :: rest⟩ := by
+  simp [Own.set]
+
+theorem pcur_loop (env : Env) (ch : List N) (root : Val) (ms : List Val)
+    (body : Nat → Own × Bool × Buf × St → M (Own × Bool × Buf × St))
+    (hbody : ∀ i r h c st, body i (r, h, c, st) = pcurBody (recvPath env ch) root ms i r h c st) :
+    ∀ (ms' mpre : List Val) (pre : List Cell) (h : Bool) (c : Buf) (st : St), mpre.length = pre.length → ms = mpre ++ ms' →
+      forFrom body pre.length ms'.length (⟨pre ++ List.replicate ms'.length (.val .null)⟩, h, c, st) =
+        pcurOut pre h (lastBuf env ch root ms' c st) (pcurLoop env ch root ms' st)
+  | [], mpre, pre, h, c, st, _, _ => by
+    simp [forFrom, pcurLoop, pcurOut, lastBuf]
+  | m :: ms', mpre, pre, h, c, st, hlen, hms => by
+    subst hms
+    simp only [List.length_cons, forFrom, hbody, pcurBody, pcurLoop, List.replicate_succ, recvPath, List.take_zero, sub_eq, lastBuf]
+    rw [← hlen, getVal_at, hlen]
+    simp only [bind, Except.bind]
+    cases retrieve env ch default root m none st.sub with
+    | error e => rfl
+    | ok v =>
+      obtain ⟨s1, e⟩ := v
+      cases e with
+      | some err =>
+        simp only [Option.isSome_some, if_true, ownSet_at]
+        have := pcur_loop env ch root _ body hbody ms' (mpre ++ [m]) (pre ++ [Cell.empty]) h s1.out (st.back s1)
+          (by simp [hlen]) (by simp)
+        rw [snoc_length, ← snoc_append] at this
+        rw [this]
+        cases pcurLoop env ch root ms' (st.back s1) with
+        | error e => rfl
+        | ok v => simp [pcurOut]
+      | none =>
+        simp only [Option.isSome_none, Bool.false_eq_true, if_false]
+        match hout : s1.out with
+        | [] => simp [bufGet, pcurOut]
+        | r0 :: rs =>
+          simp only [bufGet, List.getElem?_cons_zero, ownSet_at]
+          have := pcur_loop env ch root _ body hbody ms' (mpre ++ [m]) (pre ++ [Cell.val r0.val]) true s1.out (st.back s1)
+            (by simp [hlen]) (by simp)
+          rw [snoc_length, ← snoc_append, hout] at this
+          rw [this]
+          cases pcurLoop env ch root ms' (st.back s1) with
+          | error e => rfl
+          | ok v => simp [pcurOut]
+
+theorem pcur_range (env : Env) (ch : List N) (root : Val) (ms : List Val)
+    (body : Nat → Own × Bool × Buf × St → M (Own × Bool × Buf × St)) (st : St)
+    (hbody : ∀ i r h c st, body i (r, h, c, st) = pcurBody (recvPath env ch) root ms i r h c st) :
+    forRange ms.length (makeOwn ms.length, false, ([] : Buf), st) body =
+      pcurOut [] false (lastBuf env ch root ms [] st) (pcurLoop env ch root ms st) := by
+  simpa [forRange, makeOwn] using pcur_loop env ch root ms body hbody ms [] [] false [] st rfl rfl
+
+theorem pcur_tie (env : Env) (ch : List N) (root : Val) (ms : List Val) (st : St) :
+    computeP env (.pcur ch) root ms st = Gen.QueriesGo.currentRootCompute (recvPath env ch) root ms st := by
+  simp only [computeP, Gen.QueriesGo.currentRootCompute, bind, Except.bind]
+  rw [pcur_range env ch root ms _ st (by intro i r h c st; rfl)]
+  cases pcurLoop env ch root ms st with
+  | error e => rfl
+  | ok v =>
+    obtain ⟨cells, st1⟩ := v
+    simp only [pcurOut, Bool.false_or, List.nil_append, Own.publish]
+
+
+/-! ### every list a query returns has one cell, or one cell per member -/
+
+theorem validateTy_len (ty : LitTy) : ∀ cells, (validateTy ty cells).2.1.length = cells.length
+  | [] => rfl
+  | c :: cs => by
+    have ih := validateTy_len ty cs
+    cases c with
+    | empty => simp only [validateTy, List.length_cons, ih]
+    | val v => cases ty <;> cases v <;> simp only [validateTy, List.length_cons, ih]
+
+theorem valStep_len (c : Cmp) (lv : VL) (st : St) : (valStep c lv st).2.1.cells.length = lv.cells.length := by
+  simp only [valStep]
+  cases cmpValidatorTy c with
+  | none => rfl
+  | some ty => exact validateTy_len ty lv.cells
+
+theorem comparator_len (env : Env) (c : Cmp) (r : Val) :
+    ∀ (cells : List Cell) (v : Bool × List Cell × Nat), comparator env c r cells = .ok v → v.2.1.length = cells.length
+  | [], v, h => by
+    simp only [comparator, Except.ok.injEq] at h
+    subst h; rfl
+  | cell :: cs, v, h => by
+    simp only [comparator, bind, Except.bind] at h
+    cases hc : comparator env c r cs with
+    | error e => simp [hc] at h
+    | ok v' =>
+      have ih := comparator_len env c r cs v' hc
+      simp only [hc] at h
+      cases cell with
+      | empty =>
+        cases c <;> (simp only [Except.ok.injEq] at h; subst h; simp [ih])
+      | val x =>
+        simp only [] at h
+        cases ht : cmpTest env c x r with
+        | error e => simp [ht] at h
+        | ok b =>
+          simp only [ht] at h
+          cases b <;> (simp only [Bool.false_eq_true, if_false, if_true, Except.ok.injEq] at h; subst h; simp [ih])
+
+theorem andMerge_len : ∀ (ls rs : List Cell) (v : Bool × List Cell × Nat), andMerge ls rs = .ok v → v.2.1.length = ls.length
+  | ls, [], v, h => by
+    cases ls <;> (simp only [andMerge, Except.ok.injEq] at h; subst h; rfl)
+  | [], _ :: _, v, h => by simp [andMerge] at h
+  | l :: ls, r :: rs, v, h => by
+    simp only [andMerge, bind, Except.bind] at h
+    cases hc : andMerge ls rs with
+    | error e => simp [hc] at h
+    | ok v' =>
+      have ih := andMerge_len ls rs v' hc
+      simp only [hc] at h
+      cases r <;> (simp only [Except.ok.injEq] at h; subst h; simp [ih])
+
+theorem orMerge_len : ∀ (ls rs : List Cell) (v : List Cell × Nat), orMerge ls rs = .ok v → v.1.length = ls.length
+  | ls, [], v, h => by
+    cases ls <;> (simp only [orMerge, Except.ok.injEq] at h; subst h; rfl)
+  | [], _ :: _, v, h => by simp [orMerge] at h
+  | l :: ls, r :: rs, v, h => by
+    simp only [orMerge, bind, Except.bind] at h
+    cases hc : orMerge ls rs with
+    | error e => simp [hc] at h
+    | ok v' =>
+      have ih := orMerge_len ls rs v' hc
+      simp only [hc] at h
+      cases r <;> (simp only [Except.ok.injEq] at h; subst h; simp [ih])
+
+theorem notFlip_len : ∀ cells : List Cell, (notFlip cells).2.length = cells.length
+  | [] => rfl
+  | c :: cs => by
+    have ih := notFlip_len cs
+    cases c <;> simp [notFlip, ih]
+
+theorem pcurLoop_len (env : Env) (ch : List N) (root : Val) :
+    ∀ (ms : List Val) (st : St) (v : List Cell × St), pcurLoop env ch root ms st = .ok v → v.1.length = ms.length
+  | [], st, v, h => by
+    simp only [pcurLoop, Except.ok.injEq] at h
+    subst h; rfl
+  | m :: ms, st, v, h => by
+    simp only [pcurLoop, bind, Except.bind] at h
+    cases hr : retrieve env ch default root m none st.sub with
+    | error e => simp [hr] at h
+    | ok w =>
+      obtain ⟨s1, e⟩ := w
+      simp only [hr] at h
+      cases hl : pcurLoop env ch root ms (st.back s1) with
+      | error e' =>
+        cases e with
+        | some err => simp [hl] at h
+        | none => cases ho : s1.out <;> simp [hl, ho] at h
+      | ok v' =>
+        have ih := pcurLoop_len env ch root ms _ v' hl
+        cases e with
+        | some err => simp only [hl, Except.ok.injEq] at h; subst h; simp [ih]
+        | none =>
+          cases ho : s1.out with
+          | nil => simp [ho] at h
+          | cons r rs => simp only [ho, hl, Except.ok.injEq] at h; subst h; simp [ih]
+
+/-- `Len vl n`: one cell, or one per member -/
+def Len (vl : VL) (n : Nat) : Prop := vl.cells.length = n ∨ vl.cells.length = 1
+
+theorem computeP_len (env : Env) (p : P) (root : Val) (ms : List Val) (st : St) (v : VL × St)
+    (h : computeP env p root ms st = .ok v) : Len v.1 ms.length := by
+  cases p with
+  | lit x =>
+    simp only [computeP, Except.ok.injEq] at h
+    subst h; exact Or.inr rfl
+  | proot ch =>
+    simp only [computeP, bind, Except.bind] at h
+    cases hr : retrieve env ch default root root none st.sub with
+    | error e => simp [hr] at h
+    | ok w =>
+      obtain ⟨s1, e⟩ := w
+      simp only [hr] at h
+      cases e with
+      | some err => simp only [Except.ok.injEq] at h; subst h; exact Or.inr rfl
+      | none =>
+        simp only [] at h
+        split at h <;> (simp only [Except.ok.injEq] at h; subst h; exact Or.inr rfl)
+  | pcur ch =>
+    simp only [computeP, bind, Except.bind] at h
+    cases hl : pcurLoop env ch root ms st with
+    | error e => simp [hl] at h
+    | ok w =>
+      have := pcurLoop_len env ch root ms st w hl
+      simp only [hl] at h
+      split at h <;> (simp only [Except.ok.injEq] at h; subst h)
+      · exact Or.inl this
+      · exact Or.inr rfl
+
+theorem computeQ_len (env : Env) : ∀ (q : Q) (root : Val) (ms : List Val) (st : St) (v : VL × St),
+    computeQ env q root ms st = .ok v → Len v.1 ms.length
+  | .exist p, root, ms, st, v, h => by
+    simp only [computeQ] at h
+    exact computeP_len env p root ms st v h
+  | .cmp l r c, root, ms, st, v, h => by
+    simp only [computeQ, bind, Except.bind] at h
+    cases hl : computeP env l root ms st with
+    | error e => simp [hl] at h
+    | ok wl =>
+      have h1 := computeP_len env l root ms st wl hl
+      simp only [hl] at h
+      cases hr : computeP env r root ms (valStep c wl.1 wl.2).2.2 with
+      | error e => simp [hr] at h
+      | ok wr =>
+        simp only [hr] at h
+        split at h
+        · split at h
+          · simp at h
+          · simp at h
+          · rename_i r0 _ _
+            cases hc : comparator env c r0 (valStep c wl.1 wl.2).2.1.cells with
+            | error e => simp [hc] at h
+            | ok x =>
+              have h2 := comparator_len env c r0 _ x hc
+              simp only [hc] at h
+              split at h <;> (simp only [Except.ok.injEq] at h; subst h)
+              · simp only [Len, h2, valStep_len]; exact h1
+              · exact Or.inr rfl
+        · split at h <;> (simp only [Except.ok.injEq] at h; subst h; exact Or.inr rfl)
+  | .not a, root, ms, st, v, h => by
+    simp only [computeQ, bind, Except.bind] at h
+    cases ha : computeQ env a root ms st with
+    | error e => simp [ha] at h
+    | ok w =>
+      have h1 := computeQ_len env a root ms st w ha
+      simp only [ha] at h
+      split at h
+      · split at h <;> (simp only [Except.ok.injEq] at h; subst h; exact Or.inr rfl)
+      · split at h <;> (simp only [Except.ok.injEq] at h; subst h)
+        · simp only [Len, notFlip_len]; exact h1
+        · exact Or.inr rfl
+  | .and a b, root, ms, st, v, h => by
+    simp only [computeQ, bind, Except.bind] at h
+    cases ha : computeQ env a root ms st with
+    | error e => simp [ha] at h
+    | ok w =>
+      have h1 := computeQ_len env a root ms st w ha
+      simp only [ha] at h
+      split at h
+      · split at h
+        · simp only [Except.ok.injEq] at h; subst h; exact h1
+        · exact computeQ_len env b root ms _ v h
+      · cases hb : computeQ env b root ms w.2 with
+        | error e => simp [hb] at h
+        | ok w' =>
+          have h2 := computeQ_len env b root ms _ w' hb
+          simp only [hb] at h
+          split at h
+          · split at h <;> (simp only [Except.ok.injEq] at h; subst h)
+            · exact h2
+            · exact h1
+          · cases hm : andMerge w.1.cells w'.1.cells with
+            | error e => simp [hm] at h
+            | ok x =>
+              have h3 := andMerge_len _ _ x hm
+              simp only [hm] at h
+              split at h <;> (simp only [Except.ok.injEq] at h; subst h)
+              · simp only [Len, h3]; exact h1
+              · exact Or.inr rfl
+  | .or a b, root, ms, st, v, h => by
+    simp only [computeQ, bind, Except.bind] at h
+    cases ha : computeQ env a root ms st with
+    | error e => simp [ha] at h
+    | ok w =>
+      have h1 := computeQ_len env a root ms st w ha
+      simp only [ha] at h
+      split at h
+      · split at h
+        · exact computeQ_len env b root ms _ v h
+        · simp only [Except.ok.injEq] at h; subst h; exact h1
+      · cases hb : computeQ env b root ms w.2 with
+        | error e => simp [hb] at h
+        | ok w' =>
+          have h2 := computeQ_len env b root ms _ w' hb
+          simp only [hb] at h
+          split at h
+          · split at h <;> (simp only [Except.ok.injEq] at h; subst h)
+            · exact h1
+            · exact h2
+          · cases hm : orMerge w.1.cells w'.1.cells with
+            | error e => simp [hm] at h
+            | ok x =>
+              have h3 := orMerge_len _ _ x hm
+              simp only [hm, Except.ok.injEq] at h
+              subst h
+              simp only [Len, h3]; exact h1
+
+
+/-! ### `||` tie -/
+
+def recvOr (env : Env) (a b : Q) : OrRecv := ⟨computeQ env a, computeQ env b⟩
+
+theorem or_tie (env : Env) (a b : Q) (root : Val) (ms : List Val) (st : St) :
+    computeQ env (.or a b) root ms st = Gen.QueriesGo.orCompute (recvOr env a b) root ms st := by
+  simp only [computeQ, Gen.QueriesGo.orCompute, recvOr, bind, Except.bind]
+  cases ha : computeQ env a root ms st with
+  | error e => rfl
+  | ok v =>
+    have hla := computeQ_len env a root ms st v ha
+    obtain ⟨⟨lo, ls⟩, st1⟩ := v
+    simp only []
+    by_cases h1 : ls.length = 1
+    · obtain ⟨c, rfl⟩ := len1 h1
+      cases c <;> simp [getCell]
+    · have h1' : (ls.length == 1) = false := by simpa using h1
+      simp only [h1', Bool.false_eq_true, if_false]
+      cases hb : computeQ env b root ms st1 with
+      | error e => rfl
+      | ok v =>
+        have hlb := computeQ_len env b root ms st1 v hb
+        obtain ⟨⟨ro, rs⟩, st2⟩ := v
+        simp only []
+        by_cases h2 : rs.length = 1
+        · obtain ⟨c, rfl⟩ := len1 h2
+          cases c <;> simp [getCell]
+        · have h2' : (rs.length == 1) = false := by simpa using h2
+          simp only [h2', Bool.false_eq_true, if_false]
+          have hle : rs.length ≤ ls.length := by
+            simp only [Len] at hla hlb
+            omega
+          rw [or_range _ ro lo rs ls st2 (by intro i l st; rfl) hle]
+          cases orMerge ls rs with
+          | error e => rfl
+          | ok v => rfl
+
+/-! ### compare parameter, compare query -/
+
+/-- the three parameter nodes as the generated code evaluates them -/
+def goP (env : Env) : P → Compute
+  | .lit v => Gen.QueriesGo.literalCompute (recvLit v)
+  | .proot ch => Gen.QueriesGo.rootCompute (recvPath env ch)
+  | .pcur ch => Gen.QueriesGo.currentRootCompute (recvPath env ch)
+
+theorem computeP_eq_goP (env : Env) (p : P) (root : Val) (ms : List Val) (st : St) :
+    computeP env p root ms st = goP env p root ms st := by
+  cases p with
+  | lit v => exact lit_tie env v root ms st
+  | proot ch => exact proot_tie env ch root ms st
+  | pcur ch => exact pcur_tie env ch root ms st
+
+def isProot : P → Bool
+  | .proot _ => true
+  | _ => false
+
+/-- receiver of the `syntaxBasicCompareParameter` wrapping operand `p` -/
+def recvParam (env : Env) (p : P) : ParamRecv := ⟨goP env p, isProot p⟩
+
+theorem param_tie (env : Env) (p : P) (root : Val) (ms : List Val) (st : St) :
+    computeP env p root ms st = Gen.QueriesGo.compareParameterCompute (recvParam env p) root ms st := by
+  cases p with
+  | lit v => exact lit_tie env v root ms st
+  | pcur ch => exact pcur_tie env ch root ms st
+  | proot ch =>
+    simp only [Gen.QueriesGo.compareParameterCompute, recvParam, isProot, goP, if_true, bind, Except.bind]
+    simp only [← proot_tie, computeP]
+
+/-- receiver of a `.cmp l r c` query -/
+def recvCmp (env : Env) (l r : P) (c : Cmp) : CmpRecv where
+  leftParam := Gen.QueriesGo.compareParameterCompute (recvParam env l)
+  rightParam := Gen.QueriesGo.compareParameterCompute (recvParam env r)
+  validate := valStep c
+  comparator := fun lv cell st =>
+    match cell with
+    | .empty => .error .typeAssertion
+    | .val r0 => do
+      let (hit, cells, w) ← comparator env c r0 lv.cells
+      .ok (hit, { lv with cells := cells }, st.wrote lv.org w)
+  comparatorIsDeepEQ := c == .deepEq
+
+theorem cmp_tie (env : Env) (l r : P) (c : Cmp) (root : Val) (ms : List Val) (st : St) :
+    computeQ env (.cmp l r c) root ms st = Gen.QueriesGo.compareQueryCompute (recvCmp env l r c) root ms st := by
+  simp only [computeQ, Gen.QueriesGo.compareQueryCompute, recvCmp, ← param_tie, bind, Except.bind]
+  cases computeP env l root ms st with
+  | error e => rfl
+  | ok wl =>
+    obtain ⟨lv0, st1⟩ := wl
+    simp only []
+    cases computeP env r root ms (valStep c lv0 st1).2.2 with
+    | error e => rfl
+    | ok wr =>
+      obtain ⟨rv0, st3⟩ := wr
+      simp only []
+      rcases Bool.eq_false_or_eq_true (valStep c lv0 st1).1 with hlf | hlf <;>
+      rcases Bool.eq_false_or_eq_true (valStep c rv0 st3).1 with hrf | hrf <;>
+        simp only [hlf, hrf, Bool.and_true, Bool.and_false, Bool.false_eq_true, if_false, if_true, BEq.rfl, Bool.true_and]
+      · rcases hcells : (valStep c rv0 st3).2.1.cells with _ | ⟨c0, tl⟩
+        · simp [getCell, hcells]
+        · cases c0 with
+          | empty => simp [getCell, hcells]
+          | val r0 =>
+            simp only [getCell, hcells, List.getElem?_cons_zero]
+            cases comparator env c r0 (valStep c lv0 st1).2.1.cells with
+            | error e => rfl
+            | ok v => rfl
+      · simp
+      · simp
+      · cases c <;> simp
+
+
+/-! ### existence test; the whole query through generated code only -/
+
+theorem exist_tie (env : Env) (p : P) (root : Val) (ms : List Val) (st : St) :
+    computeQ env (.exist p) root ms st = goP env p root ms st := by
+  simp only [computeQ]
+  exact computeP_eq_goP env p root ms st
+
+/-- a query evaluated by the regenerated `compute` methods at every level; the only things taken
+    from the model are the chains of the path operands (`retrieve`), and `validate` / `comparator`
+    of the comparators (tied to the source by Props/Ties.lean) -/
+def goQ (env : Env) : Q → Compute
+  | .and a b => Gen.QueriesGo.andCompute ⟨goQ env a, goQ env b⟩
+  | .or a b => Gen.QueriesGo.orCompute ⟨goQ env a, goQ env b⟩
+  | .not a => Gen.QueriesGo.notCompute ⟨goQ env a⟩
+  | .cmp l r c => Gen.QueriesGo.compareQueryCompute (recvCmp env l r c)
+  | .exist p => goP env p
+
+theorem computeQ_eq_goQ (env : Env) : ∀ (q : Q), computeQ env q = goQ env q
+  | .and a b => by
+    funext root ms st
+    rw [and_tie, goQ, recvAnd, computeQ_eq_goQ env a, computeQ_eq_goQ env b]
+  | .or a b => by
+    funext root ms st
+    rw [or_tie, goQ, recvOr, computeQ_eq_goQ env a, computeQ_eq_goQ env b]
+  | .not a => by
+    funext root ms st
+    rw [not_tie, goQ, recvNot, computeQ_eq_goQ env a]
+  | .cmp l r c => by
+    funext root ms st
+    rw [cmp_tie, goQ]
+  | .exist p => by
+    funext root ms st
+    rw [exist_tie, goQ]
 
 end QueryTie
 end JPV
